@@ -6,6 +6,8 @@
 #include "slu_cdefs.h"
 #include "slu_zdefs.h"
 
+/* the norm routines have no prototype in the public headers (the drivers declare them locally) */
+extern float slangs(char *, SuperMatrix *); extern double dlangs(char *, SuperMatrix *); extern float clangs(char *, SuperMatrix *); extern double zlangs(char *, SuperMatrix *);
 #define P s
 #define ELT float
 #define REAL float
